@@ -54,19 +54,10 @@ def commitmentTags : List Tag :=
 /-- "non-permissive" as far as commitments are concerned -/
 def NonPermissive (p : Policy) : Prop := ∀ t ∈ commitmentTags, errs p t = true
 
-theorem commitmentWeight_pos (a : Bool) (k : Nat) : 0 < commitmentWeight a k := by
-  unfold commitmentWeight
-  cases a <;> simp [Gen.Policy.commitmentBaseAnchorWeight, Gen.Policy.commitmentBaseWeight] <;> omega
-
 /-- generated-table obligation: the weights extracted from the source are positive, so the division in
     `estimate_feerate_per_kw` is never by zero at its commitment call site -/
 theorem C05_gen_weights_pos : 0 < Gen.Policy.commitmentBaseWeight ∧ 0 < Gen.Policy.commitmentBaseAnchorWeight ∧
     0 < Gen.Policy.mutualCloseWitnessWeight := by decide
-
-theorem commitmentWeight_le (a : Bool) (k : Nat) (hk : k ≤ 1048576) : commitmentWeight a k ≤ 268435456 := by
-  unfold commitmentWeight
-  cases a <;> simp [Gen.Policy.commitmentBaseAnchorWeight, Gen.Policy.commitmentBaseWeight,
-    Gen.Policy.commitmentWeightPerHtlc] <;> omega
 
 /-- core: the common validator `validate_commitment_tx` -/
 theorem validateCommitmentTx_within (p : Policy) (s : Setup) (c : ChainState) (n : Nat) (i : Info)
@@ -117,20 +108,6 @@ theorem validateCommitmentTx_within (p : Policy) (s : Setup) (c : ChainState) (n
     simp only [ho, if_true] at h
     have g2 := of_decide_eq_false (check_ok h e7)
     exact Nat.le_trans (Nat.mul_le_mul_right 1000 (Nat.le_of_not_gt g2)) (Nat.div_mul_le_self s.pushMsat 1000)
-
-/-- the verdict of either validator on a commitment passes through the common checks -/
-theorem validateCommitment_tx (p : Policy) (s : Setup) (c : ChainState) (e : EState) (n : Nat) (i : Info)
-    (point : Nat) (h : validateCommitment p s c e n i point = .ok ()) : validateCommitmentTx p s c n i = .ok () := by
-  unfold validateCommitment at h
-  split at h
-  · unfold validateCounterparty at h
-    obtain ⟨_, _, h⟩ := bind_ok h
-    obtain ⟨⟨⟩, h1, _⟩ := bind_ok h
-    exact h1
-  · unfold validateHolder at h
-    obtain ⟨_, _, h⟩ := bind_ok h
-    obtain ⟨⟨⟩, h1, _⟩ := bind_ok h
-    exact h1
 
 /-- **C05 (main), proved part.**  For every policy whose filter keeps the commitment tags errors and whose
     `max_feerate_per_kw` is below the `u32::MAX` sentinel, every setup, chain state, enforcement state,
